@@ -12,6 +12,10 @@ def check_text(ctx, text, tag, seen):
     s = impl.stream_of(ctx.scratch, text)
     case = {"listing": text if len(text) < 3000 else text[:3000] + "...", "kind": tag}
     if insts[0] != "ok" or s[0] != "ok":
+        # the real parser raised: so must the model's (whether a line may make the parser fail is C08's question)
+        m = model.outcome(ctx.driver.call({"op": "stream", "text": text}))
+        if m[0] == "ok":
+            rep.disagree("T3-parser-error", case, s if s[0] != "ok" else insts, m[1][:400])
         rep.case(case, False, tags=(tag, "impl-error"))
         return
     kept = [i for i in insts[1] if i[1] != "empty"]
@@ -42,9 +46,9 @@ VREGS = ["%xmm0", "%xmm13", "%ymm6", "%ymm29", "%zmm1", "%zmm28"]
 DECOR = ["", "", "{%k1}", "{%k2}{z}", "{%k7}"]
 
 
-def decorated_listing(g):
+def decorated_listing(g, with_oracle=False):
     """lines in objdump's AT&T syntax for EVEX instructions: `vaddpd (%rdx,%r14,2){1to4},%xmm14,%xmm5{%k2}{z}`"""
-    lines, addr = [], g.pick([0, 0x1000, 0x401000])
+    lines, addr, oracle = [], g.pick([0, 0x1000, 0x401000]), []
     for _ in range(g.int(1, 6)):
         ops = []
         for _ in range(g.pick([2, 3, 3])):
@@ -53,7 +57,9 @@ def decorated_listing(g):
                 disp = g.pick(["", "0x40", "-0x8", "0x200"])
                 inner = g.pick(["(%s,%s,%s)" % (base, idx, sc), "(%s)" % base, "(,%s,%s)" % (idx, sc)])
                 seg = g.pick(["", "", "", "%fs:", "%gs:", "%es:", "%cs:"])      # segment override: `%fs:(%rax,%rbx,1)`
-                ops.append(seg + disp + inner + g.pick(["", "", "{1to4}", "{1to16}", "{%k1}", "{%k3}{z}"]))
+                ops.append(seg + disp + inner + g.pick(["", "", "{1to4}", "{1to16}", "{1to8}", "{%k1}", "{%k3}{z}"]))
+            elif g.chance(0.05):
+                ops.append("(bad)" + g.pick(["", "{%k3}", "{%k1}{z}"]))
             elif g.chance(0.1):
                 ops.append(g.pick(["%fs:0x28", "%gs:0x10", "%st(1)", "%st", "%es:(%rdi)", "%ds:(%rsi)"]))
             elif g.chance(0.1):
@@ -62,9 +68,12 @@ def decorated_listing(g):
                 ops.append(g.pick(VREGS) + g.pick(DECOR))
         nb = g.int(6, 8)
         byts = " ".join("%02x" % g.int(0, 255) for _ in range(min(nb, 7))) + " "
-        lines.append("%8x:\t%s\t%s %s" % (addr, byts, g.pick(["vaddpd", "vmovups", "vmulps", "vsqrtsd", "vmovdqa64", "mov", "movsb", "fadd"]), ",".join(ops)))
+        mn = g.pick(["vaddpd", "vmovups", "vmulps", "vsqrtsd", "vmovdqa64", "mov", "movsb", "fadd", "vpshufbitqmb", "vbroadcastss"])
+        lines.append("%8x:\t%s\t%s %s" % (addr, byts, mn, ",".join(ops)))
+        oracle.append(("%x" % addr, mn))
         addr += nb
-    return "\n".join(lines) + "\n"
+    text = "\n".join(lines) + "\n"
+    return (text, oracle) if with_oracle else text
 
 
 def run(ctx, factor):
